@@ -26,13 +26,14 @@ import (
 // which Cancel is injected is enumerated (a marker written by a command triggers it), not timed ----
 
 type cpCase struct {
-	InFlight int    `json:"in_flight"` // tasks running `sleep` when Cancel is injected
-	Waiting  int    `json:"waiting"`   // stages that depend on them (pipeline mode)
-	At       string `json:"at"`        // before (during the before hook), cmd (during a command), between (a fast command between two long ones), after (all tasks finished), afterhook (during the task's after hook), start (before anything runs)
-	Via      string `json:"via"`       // runner | scheduler
-	Twice    bool   `json:"twice"`
-	Timeout  bool   `json:"timeout,omitempty"` // the tasks carry a (long) timeout of their own
-	ID       int    `json:"id"`
+	InFlight    int    `json:"in_flight"` // tasks running `sleep` when Cancel is injected
+	Waiting     int    `json:"waiting"`   // stages that depend on them (pipeline mode)
+	At          string `json:"at"`        // before (during the before hook), cmd (during a command), between (a fast command between two long ones), after (all tasks finished), afterhook (during the task's after hook), start (before anything runs)
+	Via         string `json:"via"`       // runner | scheduler
+	Twice       bool   `json:"twice"`
+	Timeout     bool   `json:"timeout,omitempty"`     // the tasks carry a (long) timeout of their own
+	Interactive bool   `json:"interactive,omitempty"` // the tasks are `interactive: true` and the process's stdin is an open pipe nobody writes to
+	ID          int    `json:"id"`
 }
 
 type cpReport struct {
@@ -126,6 +127,7 @@ func cancelChild() {
 			d := 50 * time.Second
 			t.Timeout = &d
 		}
+		t.Interactive = c.Interactive
 		switch c.At {
 		case "before":
 			t.Before = []string{fmt.Sprintf("echo %s.b.TRIGGER; %s", t.Name, sleep)}
@@ -212,6 +214,16 @@ func runCancelProc(c cpCase) string {
 	cmd.Env = append(os.Environ(), "VERIF_CHILD="+string(spec))
 	var out, errb bytes.Buffer
 	cmd.Stdout, cmd.Stderr = &out, &errb
+	if c.Interactive {
+		// a terminal nobody types on: reads block for ever
+		pr, pw, err := os.Pipe()
+		if err != nil {
+			return "infra: " + err.Error()
+		}
+		cmd.Stdin = pr
+		defer pw.Close()
+		defer pr.Close()
+	}
 	if err := cmd.Start(); err != nil {
 		return "infra: " + err.Error()
 	}
@@ -297,7 +309,7 @@ func cancelProcUnit(res *common.Result) {
 			return false
 		}
 		res.Evaluations++
-		distinct[fmt.Sprint(c.InFlight, c.Waiting, c.At, c.Via, c.Twice, c.Timeout)] = true
+		distinct[fmt.Sprint(c.InFlight, c.Waiting, c.At, c.Via, c.Twice, c.Timeout, c.Interactive)] = true
 		if res.Evaluations%7 == 1 {
 			res.AddSample(c)
 		}
@@ -315,7 +327,7 @@ func cancelProcUnit(res *common.Result) {
 			return false
 		}
 		parts := strings.SplitN(d, ":", 3)
-		return res.AddViolation(common.Violation{Property: "C12", Key: fmt.Sprintf("C12:%s|inflight=%d|waiting=%d|at=%s|via=%s|twice=%v|timeout=%v", parts[1], c.InFlight, c.Waiting, c.At, c.Via, c.Twice, c.Timeout), Desc: fmt.Sprintf("%+v: %s", c, parts[2]), Config: c},
+		return res.AddViolation(common.Violation{Property: "C12", Key: fmt.Sprintf("C12:%s|inflight=%d|waiting=%d|at=%s|via=%s|twice=%v|timeout=%v|interactive=%v", parts[1], c.InFlight, c.Waiting, c.At, c.Via, c.Twice, c.Timeout, c.Interactive), Desc: fmt.Sprintf("%+v: %s", c, parts[2]), Config: c},
 			map[string]interface{}{"harness": "taskrun", "mode": "plain", "property": "C12", "cp": c})
 	}
 	maxIn := 2
@@ -339,6 +351,11 @@ func cancelProcUnit(res *common.Result) {
 						}
 						if do(cpCase{InFlight: n, Waiting: w, At: at, Via: via, Twice: twice}) {
 							return
+						}
+						if n > 0 && n <= 2 && !twice && w == 0 && at == "cmd" {
+							if do(cpCase{InFlight: n, Waiting: w, At: at, Via: via, Interactive: true}) {
+								return
+							}
 						}
 						if n > 0 && !twice && w <= 1 && at != "start" && at != "after" {
 							if do(cpCase{InFlight: n, Waiting: w, At: at, Via: via, Timeout: true}) {
